@@ -36,15 +36,24 @@ def sectorOf (c : Client) : Str :=
 def grantSub (H : Str → Str) (c : Client) (uid salt fresh : Str) : Str :=
   subFor H (typeOf c) uid (sectorOf c) salt fresh
 
-/-- the four publication points: ID token and userinfo protect `sub`; the JWT access token and
-    introspection apply `update(user_claims)` after setting it -/
+/-- the four publication points. `userSubAttr`: a user attribute named `sub` that the claims rules
+    release at the point. None of the points lets it replace the grant's subject: the ID token
+    deletes it from the user claims, userinfo sets `sub` last, the JWT access token and
+    introspection only add user attributes under names not already present (F-C18-c, fixed) -/
 structure Views where
   idToken : Str
   userinfo : Str
   jwtAccess : Str
   introspection : Str
 
+def addIfAbsent (present : Option Str) (fromUser : Option Str) : Option Str :=
+  match present with
+  | some v => some v
+  | none => fromUser
+
 def views (sub : Str) (userSubAttr : Option Str) : Views :=
-  { idToken := sub, userinfo := sub, jwtAccess := userSubAttr.getD sub, introspection := userSubAttr.getD sub }
+  { idToken := sub, userinfo := sub,
+    jwtAccess := (addIfAbsent (some sub) userSubAttr).getD sub,
+    introspection := (addIfAbsent (some sub) userSubAttr).getD sub }
 
 end Idpy.Subject
